@@ -294,30 +294,36 @@ var cleanupMissing bool
 func keyString(l []string) string { return strings.Join(l, "\x00") }
 
 // setKeys configures the API keys. Entries that are already expired make
-// portbase rewrite the option asynchronously ("api key cleanup" micro task);
-// when the caller announces that, the rewrite is awaited (bounded) merely to
-// keep such stragglers rare. Correctness of the model does not depend on it,
-// see syncKeys.
+// portbase rewrite the option asynchronously: the import triggered by the
+// change event starts the micro task "api key cleanup", which stores the list
+// without the expired entries (as computed at import time, up to 3 s later).
+// Such a late write would overwrite a newer configuration of the harness, so
+// the harness lets exactly that one chain run to its end before it goes on:
+// it does not force an import (which would start a further cleanup task) but
+// waits until the stored list has changed and the change has been signalled.
+// If that does not happen (bounded), it goes on and only notes it; the model
+// never depends on it (see syncKeys / stepStable).
 func (w *world) setKeys(t fataler, entries []string, expectCleanup bool) {
 	if err := config.SetConfigOption(api.CfgAPIKeys, entries); err != nil {
 		t.Fatalf("harness: cannot set api keys: %s", err)
 	}
 	w.synced = "\x01never"
-	w.syncKeys()
 	if expectCleanup && !cleanupMissing {
 		set := keyString(entries)
-		deadline := time.Now().Add(3 * time.Second)
-		for keyString(cfgKeys()) == set {
-			if !time.Now().Before(deadline) {
-				// not part of the property: only noted, and not waited for again
-				cleanupMissing = true
-				stats.Warn("portbase did not remove expired API keys from the configuration within 3s; the harness stops waiting for that")
+		deadline := time.Now().Add(10 * time.Second)
+		for {
+			if v, settled := settledKeys(); settled && v != set {
 				break
 			}
-			time.Sleep(100 * time.Microsecond)
+			if !time.Now().Before(deadline) {
+				cleanupMissing = true
+				stats.Warn("portbase did not remove expired API keys from the configuration within 10s; the harness stops waiting for that")
+				break
+			}
+			time.Sleep(50 * time.Microsecond)
 		}
-		w.syncKeys()
 	}
+	w.syncKeys()
 }
 
 // trueKeys reads the configured key list from the option itself. Getters
